@@ -109,7 +109,8 @@ def execute(case, NP, NREQ, rnd, threaded=False):
     def origin_requests():
         return len(split_requests(conv.sim.upstreams[0].got)) if conv.sim.upstreams else 0
     for k in range(1, NREQ + 1):
-        for piece in scen.pieces(request(k, case['auth'], binary), rnd, style):
+        # (without an upstream connection every further SEGMENT goes through the handle_client_data chain: one segment per request)
+        for piece in scen.pieces(request(k, case['auth'], binary), rnd, style if k == 1 or conv.sim.upstreams else 'one'):
             conv.step(('c', piece))
         if c.eof_seen or c.reset_seen:
             break
@@ -122,6 +123,8 @@ def execute(case, NP, NREQ, rnd, threaded=False):
         if ending == 'refused':
             break
         if not conv.sim.upstreams:
+            if ending == 'normal' and not conv.sim.world.connects:
+                continue            # no upstream was wanted (a plugin said so): the client goes on sending
             break
         if origin_requests() > answered:
             answered = origin_requests()
